@@ -186,6 +186,19 @@ def r2(repo, res):
             k, v = Evaluator({"self": me, "i": i}).run(body(gm))
             names.append(v if k == "return" else k)
         ok = names == ["4", "68+rs1", "5"]
+        # fusion suffixes as the shipped databases spell them: digits, digits + letter, sub-allele numbers, generated names
+        table = {"4": "4", "68#2": "68", "79#4C": "79", "78#4.021": "78", "13#4.021.ALDY_2": "13", "80#12.002": "80", "4.ALDY_2": "4.ALDY_2", "36#10#2": "36"}
+        shown = {}
+        for major, want in table.items():
+            g2 = Obj(deletion_allele=lambda: "5", get_rsid=gene.get_rsid, is_functional=gene.is_functional, mutations=gene.mutations,
+                     alleles={major: Obj(func_muts=set(), minors={})})
+            me2 = Obj(solution=[Obj(major=major, minor=major + ".001", added=[], missing=[])], major_solution=Obj(cn_solution=Obj(gene=g2)),
+                      profile=Obj(display_format=False))
+            k, v = Evaluator({"self": me2, "i": 0}).run(body(gm))
+            shown[major] = v if k == "return" else k
+        if shown != table:
+            ok = False
+            names = names + [f"{m} shown as {shown[m]!r}, expected {w!r}" for m, w in table.items() if shown[m] != w]
 
         def major_name(i):
             return Evaluator({"self": me, "i": i}).run(body(gm))[1]
@@ -219,6 +232,11 @@ def run(repo, res):
 
 
 MUTANTS = [
+    dict(name="R2 fusion suffix stripped only when numeric (seeded C11_b2 shape)", module="solutions", expect="C11.R2",
+         edits=[("from typing import List, Dict\n", "import re\nfrom typing import List, Dict\n"),
+                ('        n = str(self.solution[i].major).split("#")[0:1]', '        n = [re.sub(r"#\\d+$", "", str(self.solution[i].major))]')]),
+    dict(name="benign: fusion suffix stripped with partition", module="solutions", kind="benign",
+         old='        n = str(self.solution[i].major).split("#")[0:1]', new='        n = [str(self.solution[i].major).partition("#")[0]]'),
     dict(name="R1 single copy without its deletion partner", module="diplotype", expect="C11.R1",
          old="        elif len(solution.solution) == 1:\n            major_dict[del_allele].append(-1)", new="        elif len(solution.solution) == 1:\n            pass"),
     dict(name="R1 all copies may stay on one haplotype", module="diplotype", expect="C11.R1",
